@@ -177,6 +177,82 @@ def gen_many_modules(rng, n):
     return lines
 
 
+def _xref_lib(ncomments, lib_cls="LibraryClassWithLongName"):
+    """A module that declares one of every kind of member another module can refer to, each carrying
+    its own doc comment (side tables of the DEFINING module: comment store, member lists)."""
+    pad = "".join(f"// padding line comment number {i} of the library module\n" for i in range(ncomments))
+    return (pad +
+            "/** doc comment of the interface declared in the library */\n"
+            "interface ShowableWithLongName { /** doc of the interface method */ method showItWithLongName(): Str }\n"
+            "/** doc comment of the library class itself */\n"
+            f"class {lib_cls}(\n  /** doc comment of the field */ val fieldWithDocLongName: int\n) : ShowableWithLongName {{\n"
+            "  /** doc comment of the static function */\n"
+            "  function computeTheAnswerLongName(): int = 42\n"
+            "  /** doc comment of the method */\n"
+            "  method showItWithLongName(): Str = \"a string literal longer than 15 bytes\"\n"
+            "  // a line comment in front of the generic method\n"
+            "  method <TypeParamLong> genericMethodLongName(argumentLongName: TypeParamLong): TypeParamLong = argumentLongName\n"
+            "  /** doc of the private helper */ private function hiddenHelperLongName(): int = 1\n"
+            "}\n"
+            "/** doc comment of the library enum */\n"
+            "class LibraryEnumWithLongName(/** doc of the first variant */ FirstVariantLongName(int), /* second */ SecondVariantLongName(Str)) {\n"
+            "  /** doc of the enum's factory */\n"
+            f"  function makeOneLongName(): LibraryEnumWithLongName = LibraryEnumWithLongName.FirstVariantLongName({lib_cls}.computeTheAnswerLongName())\n"
+            "}\n")
+
+
+def _xref_main(ncomments, lib="Lib", lib_cls="LibraryClassWithLongName"):
+    """A module that refers to every member of `_xref_lib` across the module boundary, in every
+    syntactic position a query can land on, holding `ncomments` comments of its own."""
+    c = lambda i: (f"  // comment number {i} of the using module, longer than 15 bytes\n" if i < ncomments else "")
+    return (f"import {{ {lib_cls}, LibraryEnumWithLongName, ShowableWithLongName }} from {lib}\n"
+            "import { Pair } from std.tuples\nimport { Map } from std.map\nimport { Set } from std.set\n\n"
+            f"class MainUserWithLongName(val innerWithLongName: {lib_cls}) : ShowableWithLongName {{\n"
+            + c(0) +
+            "  method showItWithLongName(): Str = this.innerWithLongName.showItWithLongName()\n"
+            + c(1) +
+            "  function useAllWithLongName(enumValueLongName: LibraryEnumWithLongName): int = {\n"
+            f"    let firstLocalLongName = {lib_cls}.computeTheAnswerLongName();\n"
+            + c(2) +
+            f"    let secondLocalLongName = {lib_cls}.init(firstLocalLongName);\n"
+            "    let thirdLocalLongName = secondLocalLongName.fieldWithDocLongName;\n"
+            "    let fourthLocalLongName = secondLocalLongName.genericMethodLongName(thirdLocalLongName);\n"
+            + c(3) +
+            "    let fifthLocalLongName = secondLocalLongName.showItWithLongName();\n"
+            "    let sixthLocalLongName = LibraryEnumWithLongName.makeOneLongName();\n"
+            "    let { fieldWithDocLongName as seventhLocalLongName } = secondLocalLongName;\n"
+            "    let mapLocalLongName = Map.empty<int, int>().remove(1);\n"
+            "    let keysLocalLongName = Set.empty<int>().remove(1).keys();\n"
+            + c(4) +
+            "    match enumValueLongName { FirstVariantLongName(payloadLongName) -> payloadLongName + fourthLocalLongName + seventhLocalLongName, SecondVariantLongName(_) -> 0 }\n"
+            "  }\n"
+            + "".join(c(i) for i in range(5, ncomments)) +
+            "}\n")
+
+
+def gen_xref_histories():
+    """Deterministic (seed-independent) cross-module family: a using module that refers to every kind
+    of documented member of a library module (and of std.map / std.set, whose members carry doc
+    comments), while the two modules hold different numbers of comments — a reference into a
+    per-module side table (comment store, member table) that a query resolves in the wrong module
+    is out of range only for some relations between the two sizes, and those depend on the edit
+    history. After every step the full query sweep runs."""
+    out = []
+    for lib_c, main_c in [(0, 0), (0, 3), (4, 0), (4, 9), (1, 1)]:
+        lib, main = _xref_lib(lib_c), _xref_main(main_c)
+        lines = ["reset", f"new Lib {hexs(lib)} Main {hexs(main)}", "q",
+                 f"up Main {hexs(_xref_main(0))}", "q",                       # the user deletes every comment of the using module
+                 f"up Lib {hexs(_xref_lib(lib_c + 6))}", "q",                 # the library grows comments: indexes shift
+                 f"up Main {hexs(_xref_main(12))}", "q",
+                 f"up Lib {hexs(_xref_lib(0))} Main {hexs(_xref_main(0))}", "q",
+                 "rn Lib lib.Util", "q",                                      # the using module now imports an absent module
+                 f"up Main {hexs(_xref_main(1, lib='lib.Util'))}", "q",
+                 "rm lib.Util", "q",
+                 f"up lib.Util {hexs(_xref_lib(2, lib_cls='RenamedLibraryClassLongName'))}", "q"]   # member owner renamed under the user
+        out.append((lines, f"xref lib_comments={lib_c} main_comments={main_c}"))
+    return out
+
+
 def model_lines(lines, impl):
     out = []
     for l, a in zip(lines, impl):
@@ -341,6 +417,8 @@ def run(ctx):
         jobs.append((gen_history(r, r.range(3, nops), True), True, f"generated seed={ctx.seed} #{j}"))
     for n in ([93, 94] if ctx.quick else [1, 92, 93, 94, 95, 100, 101, 150, 201]):  # + 7 std modules: totals 100, 101 are the slice boundary
         jobs.append((gen_many_modules(rng.fork(), n), True, f"many-modules n={n}"))
+    for xl, xlabel in gen_xref_histories():
+        jobs.append((xl, True, xlabel))
 
     def work(job):
         st = {"ops": 0, "queries": 0, "sweeps": 0}
